@@ -345,6 +345,8 @@ class PlainQuantity(Generic[MagnitudeT], PrettyIPython, SharedRegistryObject):
         return not bool(tmp.dimensionality)
 
     _dimensionality: UnitsContainerT | None = None
+    #: units container the memoised dimensionality was computed for
+    _dimensionality_units: UnitsContainerT | None = None
 
     @property
     def dimensionality(self) -> UnitsContainerT:
@@ -354,8 +356,11 @@ class PlainQuantity(Generic[MagnitudeT], PrettyIPython, SharedRegistryObject):
         dict
             Dimensionality of the PlainQuantity, e.g. ``{length: 1, time: -1}``
         """
-        if self._dimensionality is None:
+        # In-place operations (``*=``, ``/=``, ``//=``, ``**=``, ``ito``) replace
+        # ``_units``: the memo is only valid for the container it was computed for.
+        if self._dimensionality is None or self._dimensionality_units is not self._units:
             self._dimensionality = self._REGISTRY._get_dimensionality(self._units)
+            self._dimensionality_units = self._units
 
         return self._dimensionality
 
